@@ -7,5 +7,5 @@ cd "$(dirname "$0")"
 rm -f model.ml model.mli
 coqc -Q ../coq KV -w -all ../coq/Extract/Extract.v >/dev/null
 [ -f model.ml ] || { echo "oracle: no model.ml (extraction failed)"; exit 1; }
-ocamlfind ocamlopt -O3 -w -a -package str -linkpkg model.mli model.ml conv.ml parse_o.ml body_o.ml conn_o.ml printer_o.ml pool_o.ml modes_o.ml epoll_o.ml main.ml -o oracle 2>/dev/null \
-  || ocamlfind ocamlopt -w -a -package str -linkpkg model.mli model.ml conv.ml parse_o.ml body_o.ml conn_o.ml printer_o.ml pool_o.ml modes_o.ml epoll_o.ml main.ml -o oracle
+ocamlfind ocamlopt -O3 -w -a -package str -linkpkg model.mli model.ml conv.ml parse_o.ml body_o.ml conn_o.ml printer_o.ml pool_o.ml modes_o.ml epoll_o.ml memory_o.ml main.ml -o oracle 2>/dev/null \
+  || ocamlfind ocamlopt -w -a -package str -linkpkg model.mli model.ml conv.ml parse_o.ml body_o.ml conn_o.ml printer_o.ml pool_o.ml modes_o.ml epoll_o.ml memory_o.ml main.ml -o oracle
